@@ -412,7 +412,7 @@ func Worker(t *testing.T) {
 			res.Samples = append(res.Samples, o.Sample)
 		}
 		if determEvery > 0 && i%determEvery == 0 && c.Bubble {
-			tp2 := sim.NewReplayTape(tape.Values())
+			tp2 := sim.NewCheckedReplayTape(tape.Rec)
 			o2 := runOnce(t, c, tp2, tier)
 			for try := 0; try < 16 && o2.Witness != o.Witness; try++ {
 				res.Stats["determinism_retries_for_map_order"]++
@@ -425,7 +425,7 @@ func Worker(t *testing.T) {
 				os.WriteFile(fmt.Sprintf("%s.%d.second", dp, run), []byte(strings.Join(o2.Log, "\n")+"\n"), 0o644)
 			}
 			if o2.LogHash != o.LogHash || strings.Join(sigs(o2), ",") != strings.Join(sigs(o), ",") {
-				res.DetermBad = append(res.DetermBad, fmt.Sprintf("run %d: %s vs %s", run, o.LogHash, o2.LogHash))
+				res.DetermBad = append(res.DetermBad, fmt.Sprintf("run %d: %s vs %s (%s)", run, o.LogHash, o2.LogHash, tp2.Diverged))
 			} else {
 				res.DetermOK++
 			}
